@@ -81,7 +81,9 @@ def make_cases(ctx, masks, n_random):
         cases.append({"fn": "funcrep", "kind": label + (" log" if log and ncont else ""), "sparse": sparse, "indexer": idx, "nadm": r,
                       "dense": dense, "cont": cont, "arr": arr, "prefix": rng.choice(["", "next_"]),
                       "points": points_for(rng, sparse, idx, dense, cont, 6),
-                      "tol": [1, 512] if (log and ncont) else EXACT})
+                      "tol": [1, 512] if (log and ncont) else EXACT,
+                      # every fifth case in 64-bit mode with a float32 array and float64 evaluation points
+                      "mixed": len(cases) % 5 == 4})
 
     for g in masks:
         ss, cs, mask = g["sshape"], g["cshape"], g["mask"]
